@@ -459,6 +459,14 @@ class C14(FaultMonitorMixin, BaseMonitor):
                               "obj": e["obj"], "attr": e["attr"]})
                     q.append({"op": "bad_group", "changes": [bad, other], "fault": e["fault"], "strong": e["strong"],
                               "obj": e["obj"], "attr": e["attr"]})
+                    # ... and right after a change that changes nothing (a form re-submitting every field): the
+                    # library drops such no-op changes from the list while parsing it
+                    same = {"obj": other["obj"], "attr": other["attr"],
+                            "value": copy.deepcopy(spec["objs"][other["obj"]]["attrs"][other["attr"]])}
+                    q.append({"op": "bad_group", "changes": [same, bad], "fault": e["fault"] + ":after_noop",
+                              "strong": e["strong"], "obj": e["obj"], "attr": e["attr"]})
+                    q.append({"op": "bad_group", "changes": [other, same, bad], "fault": e["fault"] + ":after_valid_and_noop",
+                              "strong": e["strong"], "obj": e["obj"], "attr": e["attr"]})
                 if e["fault"] in ("list_with_wrong_class", "list_with_non_object"):
                     wrong = e["value"][1][-1] if e["fault"] == "list_with_wrong_class" else 3.5
                     for m in ("append", "insert", "extend", "iadd", "setitem"):
@@ -506,6 +514,10 @@ class C14(FaultMonitorMixin, BaseMonitor):
                     if other is not None and other["obj"] != e["obj"]:
                         other = {k_: v for k_, v in other.items() if k_ != "op"}
                         ch = [other, bad] if r.random() < 0.5 else [bad, other]
+                        if r.random() < 0.3:
+                            same = {"obj": other["obj"], "attr": other["attr"],
+                                    "value": copy.deepcopy(spec["objs"][other["obj"]]["attrs"][other["attr"]])}
+                            ch = [same, bad]
                         return {"op": "bad_group", "changes": ch, "fault": e["fault"], "strong": e["strong"],
                                 "obj": e["obj"], "attr": e["attr"], "i": i}
                 return dict(bad, op="bad_set", fault=e["fault"], strong=e["strong"], i=i)
